@@ -316,6 +316,9 @@ func cmdCheck(args []string) int {
 		"notes":               merged.Notes,
 		"shards":              n,
 	}
+	if def.Exhaustive {
+		cov["exhaustive"] = true
+	}
 	ev := map[string]any{
 		"property_id": id,
 		"tier":        tier,
